@@ -18,12 +18,17 @@ META = dict(
          "the other criteria). Binding (code -> spec): every generated set (TLC BFS over a parameter grid plus a seeded TLC -simulate walk over the "
          "full grid) is handed to the real SelectNodeToEvict in 4 element orders, realised as CNodes of a ConnmanTestMsg and evicted through "
          "CConnman::EvictTxPeerIfFull and the accept path (CreateNodeFromAcceptedSocket), both via AttemptToEvictConnection, and complemented by "
-         "seeded random sets with heavy ties (sizes 0-130, all networks, permissions and connection types); the adapter only logs "
+         "seeded random sets with heavy ties (sizes 0-130, all networks, permissions and connection types). The model's rank values are abstract; how "
+         "they become real field values is a parameter of the replay, and every set is decided under each value mapping: coarse (1 us / 1 s steps, "
+         "netgroup keys spread over 64 bits), finest (pings 1 ns apart inside one microsecond and millisecond, connection times 1 ns apart - whole "
+         "seconds for CNodes -, block / tx times 1 s apart, keys differing in the low bits only), sub_us (pings 100 ns apart, keys differing in the "
+         "high bits only) and wide (1 ms / 1 h steps); the generator puts the target's nearest champion and its nearest, longest-connected competitor "
+         "one rank value away, so comparisons coarser than the stored type turn a strict rank into a tie. The adapter only logs "
          "(candidate set read back from the real structures, chosen id or none) and TLC (EvictionJudge.tla) evaluates Allowed on every logged case.",
     note="SAFE mode: the property says whom NOT to evict; whether and whom the code evicts otherwise is not compared (a stricter protection or a "
          "different tie-break is not a violation; 'nobody evicted' is always allowed). Protection is counted over all candidates, as the statement "
          "says; the code counts over the successively reduced vector, which protects at least those. Attribute values are small integers mapped "
-         "order-preservingly onto the real field types (netgroup keys spread over 64 bits). In the connman runs (network, is_local) are realised "
+         "strictly monotonically onto the real field types under four value mappings (read back through the exact inverse). In the connman runs (network, is_local) are realised "
          "through real addresses, so combinations no connection can have (e.g. a local I2P peer) are logged as the CNode really reports them.",
     technique="TLA+ relation + pass-by-pass model of SelectNodeToEvict checked by TLC; TLC-generated boundary candidate sets run through the real "
               "SelectNodeToEvict / CConnman::AttemptToEvictConnection; recorded (set, choice) pairs judged by TLC",
@@ -90,7 +95,8 @@ def judge(ctx, log_lines, name="judge", width=1):
 
 
 def report(ctx, log_lines, verdicts, rows_by_src):
-    bad = 0
+    """Report the failing cases: at most 8, spread over the distinct (source, value mappings) signatures."""
+    groups = collections.OrderedDict()
     seen = set()
     for ln, v in zip(log_lines, verdicts):
         if v["ok"]:
@@ -100,15 +106,22 @@ def report(ctx, log_lines, verdicts, rows_by_src):
         if key in seen:
             continue
         seen.add(key)
-        bad += 1
-        if bad > 8:
-            continue
         how = sorted(set(l for c, l in zip(case["choices"], case.get("labels", [])) if c == v["bad"]))
+        sig = (case["src"], tuple(sorted(set(h.split("/")[0] for h in how))))
+        groups.setdefault(sig, []).append((key, case, v, how))
+    picked = []
+    while len(picked) < 8 and any(groups.values()):
+        for sig in list(groups):
+            if groups[sig] and len(picked) < 8:
+                picked.append(groups[sig].pop(0))
+    for key, case, v, how in picked:
         what = "eviction (%s, %d candidates, value mapping/order %s) chose peer %s: %s" % (
             case["src"], len(case["cands"]), ",".join(how[:6]) or "?", v["bad"], v["why"])
         ctx.violation(key, what, dict(adapter="eviction", mode="connman" if case["src"].startswith("connman") else "select",
                                       case=dict(cands=case["cands"]), logged=case, verdict=v))
-    return bad
+    if seen:
+        ctx.extra["failing_signatures"] = sorted("%s [%s]" % (s0, ",".join(s1)) for s0, s1 in groups)
+    return len(seen)
 
 
 def run(ctx):
@@ -215,12 +228,12 @@ def run(ctx):
         c = json.loads(log_lines[i])
         ctx.sample(dict(src=c["src"], n=len(c["cands"]), first_candidate=c["cands"][0] if c["cands"] else None, choices=c["choices"],
                         verdict=verdicts[i]))
-    ctx.assumptions += ["attribute values are small integers mapped order-preservingly onto the real field types",
+    ctx.assumptions += ["attribute values are small integers mapped strictly monotonically onto the real field types (four value mappings from 1 ns to 1 h steps)",
                         "algorithm model: exhaustive for <= 5 candidates with protection sizes scaled to 1-2; with the real sizes only on the generator's cases "
                         "whose tie classes at the netgroup / ping cut have at most 6 members"]
     return ctx.finish(level="model_checking", exhaustive=False,
                       rule="cases = (candidate set, decisions of the real code) from the TLC generator grid, a seeded TLC -simulate walk and a seeded random driver; "
-                           "each set is decided in 4 orders by SelectNodeToEvict and once by each CConnman path; non-trivial = distinct cases in which somebody was "
+                           "each set is decided under 4 value mappings x 4 element orders by SelectNodeToEvict and under 3 value mappings by each CConnman path; non-trivial = distinct cases in which somebody was "
                            "evicted (the relation then had to clear that peer on all four criteria)")
 
 
